@@ -30,6 +30,24 @@ def registry():
                                           '((hasattr(self, "_d") and hasattr(other, "_d")) ==> self._d._value == other._d._value))',
                               'bool': 'result is True or result is False'},
                      modifies=[]))
+    # C05: construct(consistency_check=True) hands out a key only if the components satisfy the RSA invariants; ValueError otherwise
+    I5 = 'tuple(int,int,int,int,int)'
+    I6 = 'tuple(int,int,int,int,int,int)'
+    rc = 'rsa_components'
+    n_, e_, d_, p_, q_ = ('spec.keys.ival(%s[%d])' % (rc, i) for i in range(5))
+    u_given = 'spec.keys.ival(%s[5])' % rc
+    u_comp = 'spec.keys.inverse(%s, %s)' % (p_, q_)
+    priv_ok = lambda u: 'spec.keys.rsa_private_ok(%s, %s, %s, %s, %s, %s)' % (n_, e_, d_, p_, q_, u)
+    ok = ('(spec.keys.rsa_public_ok(%s, %s) if len(%s) == 2 else (%s if len(%s) == 6 else (%s > 0 and spec.keys.gcd(%s, %s) == 1 and %s)))'
+          % (n_, e_, rc, priv_ok(u_given), rc, q_, p_, q_, priv_ok(u_comp)))
+    reg.add(Contract(R + 'construct', params={rc: 'tuple(int,int)|%s|%s|tuple(%s,%s)' % (I5, I6, OINT, OINT), 'consistency_check': ('const', True)},
+                     raises={'ValueError': ('iff', 'not %s' % ok)}, result=OKEY,
+                     ensures={'n': 'result._n._value == %s' % n_, 'e': 'result._e._value == %s' % e_,
+                              'private': 'hasattr(result, "_d") == (len(%s) > 2)' % rc,
+                              'comps': 'len(%s) > 2 ==> (result._d._value == %s and result._p._value == %s and result._q._value == %s and '
+                                       'result._u._value == (%s if len(%s) == 6 else %s))' % (rc, d_, p_, q_, u_given, rc, u_comp),
+                              'crt': 'len(%s) > 2 ==> (result._dp._value == %s %% (%s - 1) and result._dq._value == %s %% (%s - 1))' % (rc, d_, p_, d_, q_)},
+                     modifies=[]))
     return reg
 
 
@@ -37,4 +55,6 @@ def units(prop, tier):
     from vf.pyunit import pyvc_unit
     if prop == 'C08':
         return [pyvc_unit(prop, 'key.rsa.eq', registry, [KEY + '.__eq__'])]
+    if prop == 'C05':
+        return [pyvc_unit(prop, 'key.rsa.construct', registry, [R + 'construct'])]
     return []
